@@ -58,7 +58,7 @@ PARTIAL = ("block_packet_exact_partial / stall_without_data_when_absent_block_pa
 MPS = (8, 16, 32, 64)
 RESP_DEADLINE = 12          # a handler answers (packet begins or stall) within this many cycles of `start`
 
-NAMES_IN = ["value", "length", "start_position", "start", "tx_ready", "phy_ready(tb)"]
+NAMES_IN = ["value", "length", "start_position", "start", "tx_ready", "phy_ready(tb)", "new_request(tb)"]
 NAMES_OUT = ["tx_valid", "tx_first", "tx_last", "tx_payload", "stall"]
 
 
@@ -152,9 +152,23 @@ def make_case_setup(desc):
     if kind == "rom":
         return descrs, coll, None
     h = StandardRequestHandler(coll, max_packet_size=mps, avoid_blockram=(kind == "dist"))
-    dut = h.get_descriptor_handler_submodule()
     want = {"block": GetDescriptorHandlerBlock, "dist": GetDescriptorHandlerDistributed,
             "mux": GetDescriptorHandlerMux}[kind]
+    if desc.get("mode") == "std":
+        # the whole StandardRequestHandler; the descriptor handler it creates while elaborating is
+        # captured so that its ports can be observed (never driven)
+        captured = []
+        orig = h.get_descriptor_handler_submodule
+
+        def capture():
+            x = orig()
+            assert type(x) is want, (kind, type(x))
+            captured.append(x)
+            return x
+        h.get_descriptor_handler_submodule = capture
+        h.captured = captured
+        return descrs, coll, h
+    dut = h.get_descriptor_handler_submodule()
     assert type(dut) is want, (kind, type(dut))
     return descrs, coll, dut
 
@@ -239,7 +253,7 @@ def simulate(dut, rows_or_script, reactive):
             await rows_or_script(api)
         else:
             for r in rows_or_script:
-                await raw(list(r) + [0] * (6 - len(r)))
+                await raw(list(r) + [0] * (7 - len(r)))
 
     s.add_testbench(tb)
     s.run()
@@ -254,12 +268,13 @@ def proto_script(desc, descrs, mps, rng):
     budget = desc.get("budget", 2500)
 
     async def script(api):
-        st = {"value": 0, "length": 0, "pos": 0, "t": 0}
+        st = {"value": 0, "length": 0, "pos": 0, "t": 0, "new": 0}
 
         async def cycle(start=0):
             p = phy.bit()
             rdy = cons.ready(p)
-            o = await api.raw([st["value"], st["length"], st["pos"], start, rdy, p])
+            o = await api.raw([st["value"], st["length"], st["pos"], start, rdy, p, st["new"]])
+            st["new"] = 0
             cons.tick(st["t"], o[0], o[1], o[2], o[3], p)
             st["t"] += 1
             return o
@@ -275,7 +290,7 @@ def proto_script(desc, descrs, mps, rng):
             # IDLE state of standard.py: start_position <- 0; the SETUP packet's fields appear
             st["pos"] = 0
             await idle(rng.range(1, 3))
-            st["value"], st["length"] = value, wl
+            st["value"], st["length"], st["new"] = value, wl, 1
             await idle(rng.range(1, 4))
             received = 0
             for k in range(300):
@@ -305,6 +320,101 @@ def proto_script(desc, descrs, mps, rng):
     return script
 
 
+def simulate_std(h, desc, descrs, mps, rng):
+    """Drive the real StandardRequestHandler (request/standard.py) through GET_DESCRIPTOR transfers:
+    SETUP fields + `received`, one `data_requested` pulse per IN token, `handshakes_in.ack` after each
+    packet, `status_requested` at the end.  Returns the handler-port trace (for the Lean model of the
+    handler the StandardRequestHandler created) and the interface-level trace (for the monitor)."""
+    from amaranth.sim import Simulator
+    transfers = plan_transfers(rng.fork("plan"), descrs, mps, desc.get("scale", 1))
+    pk = desc.get("phy", ["always", 0])
+    phy = Phy(rng.fork("phy"), (pk[0], pk[1]))
+    cons = Consumer()
+    budget = desc.get("budget", 2500)
+    top = sim._Wrap(h, ["usb"])
+    s = Simulator(top)
+    s.add_clock(1e-6, domain="usb")
+    ifc = h.interface
+    gd = h.captured[0]
+    lean_in, lean_out, mon_in, mon_out = [], [], [], []
+
+    async def tb(ctx):
+        st = {"t": 0, "new": 0}
+        ctx.set(ifc.setup.type, 0)                 # USBRequestType.STANDARD
+        ctx.set(ifc.setup.is_in_request, 1)
+        ctx.set(ifc.setup.request, 6)              # GET_DESCRIPTOR
+
+        async def cycle(received=0, data_requested=0, ack=0, status=0):
+            p = phy.bit()
+            rdy = cons.ready(p)
+            ctx.set(ifc.setup.received, received)
+            ctx.set(ifc.data_requested, data_requested)
+            ctx.set(ifc.handshakes_in.ack, ack)
+            ctx.set(ifc.status_requested, status)
+            ctx.set(ifc.tx.ready, rdy)
+            hin = [ctx.get(gd.value), ctx.get(gd.length), ctx.get(gd.start_position), ctx.get(gd.start),
+                   ctx.get(gd.tx.ready)]
+            hout = [ctx.get(gd.tx.valid), ctx.get(gd.tx.first), ctx.get(gd.tx.last), ctx.get(gd.tx.payload),
+                    ctx.get(gd.stall)]
+            o = (ctx.get(ifc.tx.valid), ctx.get(ifc.tx.first), ctx.get(ifc.tx.last), ctx.get(ifc.tx.payload),
+                 ctx.get(ifc.handshakes_out.stall))
+            lean_in.append(hin + [p, st["new"]])
+            lean_out.append(hout)
+            mon_in.append([hin[0], hin[1], hin[2], hin[3], rdy, p, st["new"]])
+            mon_out.append(o)
+            st["new"] = 0
+            cons.tick(st["t"], o[0], o[1], o[2], o[3], p)
+            st["t"] += 1
+            await ctx.tick("usb")
+            return o
+
+        async def idle(n):
+            for _ in range(n):
+                await cycle()
+
+        await idle(rng.range(1, 3))
+        for value, wl in transfers:
+            if st["t"] > budget:
+                break
+            ctx.set(ifc.setup.value, value)
+            ctx.set(ifc.setup.length, wl)
+            st["new"] = 1
+            await cycle(received=1)
+            await idle(rng.range(1, 4))
+            received = 0
+            stalled = False
+            for k in range(300):
+                npk = len(cons.packets)
+                o = await cycle(data_requested=1)
+                stalled = bool(o[4])
+                w = 0
+                while not stalled and len(cons.packets) == npk and w < RESP_DEADLINE + 2:
+                    o = await cycle()
+                    stalled = stalled or bool(o[4])
+                    w += 1
+                if stalled or len(cons.packets) == npk:
+                    break
+                guard = 0
+                while cons.st != cons.IDLE and guard < 4000:
+                    await cycle()
+                    guard += 1
+                pkt = cons.packets[-1]
+                await idle(rng.range(4, 12))
+                await cycle(ack=1)                          # the host's ACK
+                received += len(pkt["bytes"])
+                if len(pkt["bytes"]) < mps or received >= wl or st["t"] > budget + 1500:
+                    break
+                await idle(rng.range(2, 8))
+            await idle(rng.range(2, 6))
+            if not stalled:
+                await cycle(status=1)                       # status stage
+            await idle(rng.range(2, 6))
+
+    s.add_testbench(tb)
+    s.run()
+    return lean_in, lean_out, mon_in, mon_out
+
+
 def chaos_rows(desc, descrs, mps, rng):
     keys = [(t << 8) | i for t, i, b, rt in descrs]
     vals = keys * 3 + [v for v in (absent_value(rng, descrs) for _ in range(4)) if v is not None]
@@ -325,7 +435,7 @@ def chaos_rows(desc, descrs, mps, rng):
             L = rng.choice(lens)
             pos = rng.choice([0, mps, 2 * mps, 3 * mps, L, max(0, L - 1), L + 1, rng.below(2048), rng.below(64),
                               mps * rng.below(40)]) & 0x7FF
-        rows.append([value, length, pos, 1 if rng.chance(p_start) else 0, 1 if rng.chance(p_ready) else 0, 0])
+        rows.append([value, length, pos, 1 if rng.chance(p_start) else 0, 1 if rng.chance(p_ready) else 0, 0, 0])
     return rows
 
 
@@ -351,13 +461,23 @@ def monitor(rows_in, rows_out, descrs, mps):
         fails.append({"cycle": t, "sig": sig, "what": what})
 
     T = len(rows_in)
+    nth = None
     for t, (i, o) in enumerate(zip(rows_in, rows_out)):
         value, length, pos, start, ready, phy = i[:6]
+        if len(i) > 6 and i[6]:
+            nth = 0                                          # a new control request: the next IN is its first
         valid, first, last, payload, stall = o
         if ready != cons.ready(phy):
             return [], {"not-a-packet-generator-trace"}      # stimulus not produced by the environment model
         if start:
             events.append({"t": t, "value": value, "length": length, "pos": pos, "packets": [], "stall": None})
+            # standard.py: start_position is 0 for the first IN and advances by max_packet_size per ACKed packet
+            if nth is not None:
+                if pos != (nth * mps) & 0x7FF:
+                    fail(t, "start-position-advance", "IN number %d of the request starts the handler at "
+                         "start_position=%d, expected %d (value=0x%04x wLength=%d mps=%d)"
+                         % (nth, pos, (nth * mps) & 0x7FF, value, length, mps))
+                nth += 1
         if stall:
             if not events:
                 fail(t, "stall-unsolicited", "stall pulsed at cycle %d before any request" % t)
@@ -475,11 +595,11 @@ def monitor(rows_in, rows_out, descrs, mps):
 def gen_cases(tier, rng):
     out = []
     if tier == "quick":
-        n_proto, n_chaos, n_rom = 26, 8, 120
+        n_proto, n_chaos, n_rom, n_std = 26, 8, 120, 10
     elif tier == "widen":
-        n_proto, n_chaos, n_rom = 80, 10, 200
+        n_proto, n_chaos, n_rom, n_std = 80, 10, 200, 30
     else:
-        n_proto, n_chaos, n_rom = 260, 60, 2500
+        n_proto, n_chaos, n_rom, n_std = 260, 60, 2500, 100
     phys = [["always", 0]] * 5 + [["random", 70], ["random", 35], ["period", 3], ["period", 8]]
     for kind in ("block", "dist", "mux"):
         for k in range(n_proto):
@@ -495,6 +615,9 @@ def gen_cases(tier, rng):
                             "realistic": d.get("realistic", 0), "of": kind})
         for k in range(n_chaos):
             out.append({"kind": kind, "mode": "chaos", "mps": MPS[k % 4], "seed": rng.u64(), "cycles": 500})
+        for k in range(n_std):
+            out.append({"kind": kind, "mode": "std", "mps": MPS[k % 4], "seed": rng.u64(),
+                        "phy": rng.choice(phys), "budget": 2500})
     for k in range(n_rom):
         out.append({"kind": "rom", "mode": "rom", "mps": 64, "seed": rng.u64(), "realistic": 1 if k % 17 == 3 else 0})
     return out
@@ -516,6 +639,12 @@ def run_case(desc):
         # romOk and wellFormed are evaluated by the Lean driver on the ROM it laid out itself
         return Case(cfg, [[0]], [[1, 1] + dump], [], tags, desc, ["-"], ["romOk", "wellFormed", "rom…"])
     rng = Rng(desc["seed"]).fork("stimulus")
+    if desc["mode"] == "std":
+        # (replays re-run the deterministic reactive script; the recorded stimulus is informational)
+        lean_in, lean_out, mon_in, mon_out = simulate_std(dut, desc, descrs, mps, rng)
+        fails, mtags = monitor(mon_in, mon_out, descrs, mps)
+        tags |= mtags
+        return Case(cfg, lean_in, lean_out, fails, sorted(tags), desc, NAMES_IN, NAMES_OUT)
     if desc.get("stimulus"):
         rows_in, rows_out = simulate(dut, desc["stimulus"], reactive=False)
     elif desc["mode"] == "chaos":
